@@ -364,19 +364,85 @@ structure Out where
   /-- CREATE TABLE adds an entry instead of replacing one -/
   isNew : Bool := false
 
-/-- one record of the joined view of a multi-table statement: per FROM table its (id, record) -/
-abbrev JRow := List (Nat × Row)
+/-- one record of the joined view of a multi-table statement: per FROM table its (internal record id, record).
+    The id is `none` on the NULL-padded side of an outer join (LoadView pads the whole record of the other
+    table, its internal-id cell included: `View.InternalRecordId` then answers "internal record id is empty"). -/
+abbrev JRow := List (Option Nat × Row)
 
 def jctx (jr : JRow) : List Row := jr.map Prod.snd
 
+/-- `View.InternalRecordId(ref, i)`: the id of the `p`-th FROM table in the joined record, if it has one -/
+def jid (p : Nat) (jr : JRow) : Option Nat := (jr[p]?).bind Prod.fst
+
 /-- cross join in FROM order (records of the first table vary slowest) -/
-def crossJoin : List (List (Nat × Row)) → List JRow
+def crossJoin : List (List (Option Nat × Row)) → List JRow
   | [] => [[]]
   | t :: ts => t.flatMap fun x => (crossJoin ts).map fun jr => x :: jr
 
-def idRows : List Row → Nat → List (Nat × Row)
+def idRows : List Row → Nat → List (Option Nat × Row)
   | [], _ => []
-  | r :: rs, k => (k, r) :: idRows rs (k + 1)
+  | r :: rs, k => (some k, r) :: idRows rs (k + 1)
+
+/-! ### outer joins in the FROM clause of UPDATE / DELETE (join.go OuterJoin, two tables)
+
+  For RIGHT the code swaps the two views, so the preserved side is always the outer loop; FULL is LEFT followed by
+  the right records no left record matched (Model/Rel.lean proves that every chunking over the workers gives this
+  order: `outer_left_spec`, `outer_right_spec`, `outer_full_spec`).  A failing ON condition aborts. -/
+
+inductive Dir | left | right | full
+  deriving DecidableEq, Repr, Inhabited
+
+/-- how the FROM tables are combined: `cross` = comma list / CROSS JOIN / INNER JOIN (the ON condition of an inner
+    join filters the product exactly like WHERE and is handed over as part of the statement's condition);
+    `outer dir on` = `A LEFT|RIGHT|FULL JOIN B ON on` over exactly two tables -/
+inductive Join
+  | cross
+  | outer (dir : Dir) (on : List Row → Except Err Tern)
+
+def nullRow (w : Nat) : Row := List.replicate w nullCell
+
+/-- the records of the inner-loop view that the ON condition accepts for one outer-loop record -/
+def partners (on : Row → Except Err Tern) : List (Option Nat × Row) → Except Err (List (Option Nat × Row))
+  | [] => .ok []
+  | j :: js =>
+    match on j.2 with
+    | .error e => .error e
+    | .ok c =>
+      match partners on js with
+      | .error e => .error e
+      | .ok ms => .ok (if isT c then j :: ms else ms)
+
+/-- outer loop: every record once per partner, or once with the padded record `pad` when it has none;
+    `mk o j` puts the two in FROM order -/
+def outerLoop (on : Row → Row → Except Err Tern) (mk : (Option Nat × Row) → (Option Nat × Row) → JRow)
+    (pad : Option Nat × Row) (inner : List (Option Nat × Row)) : List (Option Nat × Row) → Except Err (List JRow)
+  | [] => .ok []
+  | o :: os =>
+    match partners (on o.2) inner with
+    | .error e => .error e
+    | .ok ms =>
+      match outerLoop on mk pad inner os with
+      | .error e => .error e
+      | .ok rest => .ok ((if ms.isEmpty then [mk o pad] else ms.map (mk o)) ++ rest)
+
+/-- the right records no left record matched (FULL): evaluated after the loop above, which has already seen
+    every pair (a failing pair aborted there) -/
+def unmatchedRight (on : Row → Row → Except Err Tern) (A : List (Option Nat × Row)) : List (Option Nat × Row) → List (Option Nat × Row)
+  | [] => []
+  | b :: bs =>
+    if A.any (fun a => match on a.2 b.2 with | .ok c => isT c | .error _ => false) then unmatchedRight on A bs
+    else b :: unmatchedRight on A bs
+
+def outerJoin (dir : Dir) (on : List Row → Except Err Tern) (wa wb : Nat) (A B : List (Option Nat × Row)) : Except Err (List JRow) :=
+  let padA : Option Nat × Row := (none, nullRow wa)
+  let padB : Option Nat × Row := (none, nullRow wb)
+  match dir with
+  | .left => outerLoop (fun a b => on [a, b]) (fun a b => [a, b]) padB B A
+  | .right => outerLoop (fun b a => on [a, b]) (fun b a => [a, b]) padA A B
+  | .full =>
+    match outerLoop (fun a b => on [a, b]) (fun a b => [a, b]) padB B A with
+    | .error e => .error e
+    | .ok recs => .ok (recs ++ (unmatchedRight (fun a b => on [a, b]) A B).map fun b => [padA, b])
 
 inductive Stmt
   | insert (tbl : String) (fields : Option (List String)) (src : Tables → List (Except Err Row))
@@ -384,8 +450,8 @@ inductive Stmt
       (src : Tables → List (Except Err Row))
   | update (tbl : String) (cond : Row → Except Err Tern) (sets : List (SetItem Row))
   | delete (tbl : String) (cond : Row → Except Err Tern)
-  | updateMulti (targets froms : List String) (cond : List Row → Except Err Tern) (sets : List (String × SetItem (List Row)))
-  | deleteMulti (targets froms : List String) (cond : List Row → Except Err Tern)
+  | updateMulti (targets froms : List String) (join : Join) (cond : List Row → Except Err Tern) (sets : List (String × SetItem (List Row)))
+  | deleteMulti (targets froms : List String) (join : Join) (cond : List Row → Except Err Tern)
   | addCols (tbl : String) (pos : ColPos) (cols : List (String × Option (Row → Except Err Cell)))
   | dropCols (tbl : String) (cols : List String)
   | rename (tbl : String) (old new : String)
@@ -399,12 +465,23 @@ def getCopies (ts : Tables) : List String → Except Err (List Table)
     | .error e => .error e
     | .ok t => match getCopies ts ns with | .error e => .error e | .ok rest => .ok (t :: rest)
 
+/-- LoadView over the FROM clause: the joined records with the internal ids of every table -/
+def joinRows (join : Join) (srcs : List Table) : Except Err (List JRow) :=
+  match join with
+  | .cross => .ok (crossJoin (srcs.map fun t => idRows t.rows 0))
+  | .outer dir on =>
+    match srcs with
+    | [a, b] => outerJoin dir on a.header.length b.header.length (idRows a.rows 0) (idRows b.rows 0)
+    | _ => .error (.other 0)
+
 /-- the filtered joined view of a multi-table statement -/
-def joinedView (ts : Tables) (froms : List String) (cond : List Row → Except Err Tern) : Except Err (List (Option Nat × JRow)) :=
+def joinedView (ts : Tables) (froms : List String) (join : Join) (cond : List Row → Except Err Tern) : Except Err (List (Option Nat × JRow)) :=
   match getCopies ts froms with
   | .error e => .error e
   | .ok srcs =>
-    filterView (fun jr => cond (jctx jr)) ((crossJoin (srcs.map fun t => idRows t.rows 0)).map fun jr => (none, jr))
+    match joinRows join srcs with
+    | .error e => .error e
+    | .ok recs => filterView (fun jr => cond (jctx jr)) (recs.map fun jr => (none, jr))
 
 /-- Update's loop is row-major: for every record of the filtered joined view, for every SET item in order —
     evaluate the value, find the item's table and column (FieldViewName), require the table to be an update
@@ -424,11 +501,11 @@ def scanSets (ts : Tables) (targets froms : List String) (jr : JRow) :
         | .error e => .error e
         | .ok j =>
           if tn ∉ targets then .error .updFieldNotExist
-          else match jr[p]? with
+          else match jid p jr with
             | none => .error .ambiguous
-            | some x =>
-              if (tn, x.1, j) ∈ touched then .error .ambiguous
-              else scanSets ts targets froms jr rest ((tn, x.1, j) :: touched)
+            | some i =>
+              if (tn, i, j) ∈ touched then .error .ambiguous
+              else scanSets ts targets froms jr rest ((tn, i, j) :: touched)
       | _, _ => .error .fieldNotExist
 
 def scanView (ts : Tables) (targets froms : List String) (sets : List (String × SetItem (List Row))) :
@@ -449,7 +526,7 @@ def updateTargets (ts : Tables) (froms : List String) (view : List JRow) (sets :
       match firstIdx tn froms with
       | none => .error .noTable
       | some p =>
-        match updateCore (view.map fun jr => ((jr[p]?).map Prod.fst, jctx jr))
+        match updateCore (view.map fun jr => (jid p jr, jctx jr))
             ((sets.filter fun s => s.1 = tn).map Prod.snd) t with
         | .error e => .error e
         | .ok (t', n) =>
@@ -466,7 +543,7 @@ def deleteTargets (ts : Tables) (froms : List String) (view : List JRow) : List 
       match firstIdx tn froms with
       | none => .error .noTable
       | some p =>
-        let r := deleteCore (view.map fun jr => (jr[p]?).map Prod.fst) t
+        let r := deleteCore (view.map (jid p)) t
         match deleteTargets ts froms view rest with
         | .error e => .error e
         | .ok outs => .ok ({ name := tn, table := r.1, count := r.2, mark := 0 < r.2 } :: outs)
@@ -511,15 +588,15 @@ def body (ts : Tables) : Stmt → Except Err (List Out)
       match deleteImpl cond t with
       | .error e => .error e
       | .ok (t', n) => .ok [{ name := tbl, table := t', count := n, mark := 0 < n }]
-  | .updateMulti targets froms cond sets =>
-    match joinedView ts froms cond with
+  | .updateMulti targets froms join cond sets =>
+    match joinedView ts froms join cond with
     | .error e => .error e
     | .ok view =>
       match scanView ts targets froms sets (view.map Prod.snd) [] with
       | .error e => .error e
       | .ok _ => updateTargets ts froms (view.map Prod.snd) sets targets
-  | .deleteMulti targets froms cond =>
-    match joinedView ts froms cond with
+  | .deleteMulti targets froms join cond =>
+    match joinedView ts froms join cond with
     | .error e => .error e
     | .ok view => deleteTargets ts froms (view.map Prod.snd) targets
   | .addCols tbl pos cols =>
@@ -605,7 +682,7 @@ def stmtCancel (s : State) (st : Stmt) : CancelPoint → State × Result
     Kept as a fact about the old code (Props/C08: `old_publication_loop_…`). -/
 def stmtCancelOldLoop (s : State) (st : Stmt) (k : Nat) : State × Result :=
   match st with
-  | .deleteMulti _ _ _ =>
+  | .deleteMulti _ _ _ _ =>
     match body s.tables st with
     | .error e => (s, .error e)
     | .ok outs =>
